@@ -28,6 +28,7 @@
 #include <syslog.h>
 #include <dlfcn.h>
 #include <pthread.h>
+#include <sched.h>
 #include <utmp.h>
 #include <sys/types.h>
 #include <sys/stat.h>
